@@ -18,7 +18,7 @@ CONSTANTS Inf, Tracing
 
 VARIABLES
     now,
-    evs,        \* id -> [prio 0..3 (3 = urgent), verdict, empty, hold, act, arg, onerr]
+    evs,        \* id -> [prio 0..3 (3 = urgent), verdict, empty, hold, act, arg, onerr, errhold]
     cap,        \* capacity of the event queue
     ecap,       \* capacity of the error channel
     queue,      \* ids in the event queue
@@ -43,6 +43,8 @@ InitW(th) == [
     hEnd     |-> 0,           \* when the (async) handler returns
     quit     |-> "none",      \* what the running handler asked for
     blockedOn |-> 0,          \* the error being sent while the error channel is full
+    hookEnd  |-> 0,           \* the error hook (another task; kept here) is busy with a slow handler until then
+    errGen   |-> 0,           \* how often the error handler has replaced itself: which one is installed
     minThr   |-> th,          \* history: smallest / largest throttle read in the current cycle
     maxThr   |-> th,
     batches  |-> <<>>,        \* history: [ids, at, first, urgent, thr]
@@ -208,11 +210,17 @@ MainEndsOk ==
 ---------------------------------------------------------------------------
 \* The error hook: errors.recv() -> handler -> handle_crit
 
+\* A handler that takes a while keeps the hook from receiving the next error until it is done; the
+\* worker and everything else go on (and the worker may then block on the full error channel).
 ErrHookStep(t) ==
-    /\ main = "run" /\ errq # <<>>
+    /\ main = "run" /\ errq # <<>> /\ t >= W.hookEnd
     /\ LET e == Head(errq) IN
        /\ errq' = Tail(errq)
-       /\ W' = Emit([W EXCEPT !.out = <<>>], Ev("error", e, 0, evs[e].onerr, "", 0))
+       \* the installed handler is called (a handler that replaces itself does so from inside the
+       \* call: this error is still its own, the next one goes to the new handler)
+       /\ W' = Emit([W EXCEPT !.out = <<>>, !.hookEnd = t + evs[e].errhold,
+                               !.errGen = IF evs[e].onerr = "replace" THEN @ + 1 ELSE @],
+                     Ev("error", e, W.errGen, IF evs[e].onerr = "replace" THEN "ignore" ELSE evs[e].onerr, "", 0))
        /\ main' = IF evs[e].onerr \in {"elevate", "critical"} THEN "failing" ELSE "run"
        /\ hist' = [hist EXCEPT !.errSeen = (e :> (IF e \in DOMAIN @ THEN @[e] ELSE 0) + 1) @@ @]
     /\ now' = t
@@ -233,15 +241,15 @@ WorkerEnabled(t) ==
        \/ W.pc = "errsend" /\ Len(errq) < ecap
        \/ W.pc = "ended"
 
-HookEnabled == main = "run" /\ errq # <<>>
+HookEnabled(t) == main = "run" /\ errq # <<>> /\ t >= W.hookEnd
 SendEnabled == pending # {} /\ (~QueueOpen \/ Cardinality(queue) < cap)
 
-AnyEnabled(t) == WorkerEnabled(t) \/ HookEnabled \/ SendEnabled \/ main = "failing"
+AnyEnabled(t) == WorkerEnabled(t) \/ HookEnabled(t) \/ SendEnabled \/ main = "failing"
 
 NextDeadline ==
-    IF ~Alive THEN Inf
-    ELSE IF W.pc = "collect" /\ W.set # <<>> /\ W.deadline > now THEN W.deadline
-    ELSE IF W.pc = "handler" /\ W.hEnd > now THEN W.hEnd
-    ELSE Inf
+    LET ds == (IF Alive /\ W.pc = "collect" /\ W.set # <<>> /\ W.deadline > now THEN {W.deadline} ELSE {})
+              \cup (IF Alive /\ W.pc = "handler" /\ W.hEnd > now THEN {W.hEnd} ELSE {})
+              \cup (IF main = "run" /\ errq # <<>> /\ W.hookEnd > now THEN {W.hookEnd} ELSE {})
+    IN  IF ds = {} THEN Inf ELSE CHOOSE d \in ds : \A x \in ds : d <= x
 
 =============================================================================
